@@ -137,6 +137,7 @@ class Scheduler:
         self.errors = [None] * self.n   # harness-level exceptions inside thread bootstrap
         self.switches = 0
         self._codes = {}
+        self.monitor = None             # optional callable evaluated in every explored state (each scheduling point)
 
     # -- choice -----------------------------------------------------------------------------------
     def _enabled(self, running):
@@ -184,6 +185,8 @@ class Scheduler:
     # -- called from the tracer / locks / thread bootstrap ---------------------------------------------
     def point(self, me, ident):
         self.steps += 1
+        if self.monitor is not None:
+            self.monitor()
         if self.steps > self.max_steps:
             # a thread that loops while it is the only enabled one never reaches a recorded choice point
             self._abort('step budget exceeded (%d instructions in one execution)' % self.max_steps)
@@ -370,7 +373,9 @@ def explore(make_bodies, filename, bound, on_execution, reduce=True, max_executi
             stats['capped'] = True
             break
         bodies, harvest = make_bodies()
-        s = Scheduler(bodies, prefix, filename, reduce=reduce, expect=expect).run()
+        s = Scheduler(bodies, prefix, filename, reduce=reduce, expect=expect)
+        s.monitor = getattr(harvest, 'monitor', None)      # a state invariant supplied by the harness
+        s.run()
         obs = harvest(s)
         stats['executions'] += 1
         stats['points'] += len(s.points)
@@ -381,7 +386,9 @@ def explore(make_bodies, filename, bound, on_execution, reduce=True, max_executi
         stats['by_preemptions'][total_pre] = stats['by_preemptions'].get(total_pre, 0) + 1
         if verify_replay and stats['executions'] <= verify_replay:
             b2, h2 = make_bodies()
-            s2 = Scheduler(b2, s.choices, filename, reduce=reduce, expect=s.points).run()
+            s2 = Scheduler(b2, s.choices, filename, reduce=reduce, expect=s.points)
+            s2.monitor = getattr(h2, 'monitor', None)
+            s2.run()
             obs2 = h2(s2)
             if obs2 != obs or s2.choices != s.choices:
                 raise Divergence('same schedule, different observation: %r vs %r' % (obs, obs2))
@@ -401,5 +408,7 @@ def explore(make_bodies, filename, bound, on_execution, reduce=True, max_executi
 
 def run_schedule(make_bodies, filename, choices, reduce=True):
     bodies, harvest = make_bodies()
-    s = Scheduler(bodies, choices, filename, reduce=reduce).run()
+    s = Scheduler(bodies, choices, filename, reduce=reduce)
+    s.monitor = getattr(harvest, 'monitor', None)
+    s.run()
     return harvest(s), s
